@@ -5,7 +5,8 @@
    that means for the Cartesian value.  cal_product_types / default_cal_products are regenerated from the source. *)
 From Coq Require Import ZArith QArith Qround Qabs List Bool String Sorting.Sorted.
 From KV Require Import Base.Sx Base.Str Gen.Generated Model.Interp Model.CalInterp Model.CalSelect Model.CalDispatch
-  Proofs.InterpP Proofs.CalInterpP Proofs.CalStitchP Proofs.CalSelectP Proofs.CalDispatchP.
+  Model.CalDeliver Proofs.InterpP Proofs.CalInterpP Proofs.CalStitchP Proofs.CalSelectP Proofs.CalDispatchP
+  Proofs.CalDeliverP.
 Import ListNotations.
 Open Scope Q_scope.
 
@@ -346,3 +347,41 @@ Theorem C14_model_is_spec :
      spec_gain_like_correction rsqrt t N sols names_at tbl targets).
 Proof. exact (conj bandpass_is_spec (conj gain_is_spec dispatch_is_spec)). Qed.
 Print Assumptions C14_model_is_spec.
+
+(* WHAT THE DATA CHANNELS RECEIVE (Model/CalDeliver.v: the channel-map choice of calc_correction — Model/Applycal.v
+   choose_map, whose K/B clause is regenerated from the source — and g[i1] * conj(g[i2])).  `data` = the data channel
+   frequencies, `cal` = the cal stream's channel frequencies: ANY two lists (same or different lengths, equal, offset,
+   narrower, coarser).  i1, i2 = the two inputs of a correlation product. *)
+(* "Delay solutions become exp(-2 pi i delay frequency)" AT THE DATA CHANNEL'S OWN FREQUENCY: magnitude 1, phase
+   -(d1 - d2) * data[c] turns, a NaN delay = 0, for every cal channelisation. *)
+Theorem C14_delivered_delay :
+  (forall data cal delays i1 i2, (i1 < List.length delays)%nat -> (i2 < List.length delays)%nat ->
+     delivered_delay data cal delays i1 i2 = spec_delivered_delay data delays i1 i2) /\
+  (forall data cal delays i1 i2 c,
+     (i1 < List.length delays)%nat -> (i2 < List.length delays)%nat -> (c < List.length data)%nat ->
+     exists m p, nth c (delivered_delay data cal delays i1 i2) None = Some (m, p) /\ m == 1 /\
+       p == - (((match nth i1 delays None with Some q => q | None => 0 end) -
+                (match nth i2 delays None with Some q => q | None => 0 end)) * nth c data 0)).
+Proof. exact (conj delivered_delay_is_spec delivered_delay_formula). Qed.
+Print Assumptions C14_delivered_delay.
+
+(* Bandpass: data channel c receives recip(interpolated solution of input 1 at data[c]) * conj(same for input 2), and
+   INVALID when data[c] lies beyond the outermost valid cal channel of input 1 — for every cal channelisation. *)
+Theorem C14_delivered_bandpass :
+  (forall data cal bps i1 i2, (i1 < List.length bps)%nat -> (i2 < List.length bps)%nat ->
+     delivered_bandpass data cal bps i1 i2 = spec_delivered_bandpass data cal bps i1 i2) /\
+  (forall data cal bps i1 i2 c x0 v0 t,
+     (i1 < List.length bps)%nat -> (i2 < List.length bps)%nat -> (c < List.length data)%nat ->
+     valid_nodes cal (nth i1 bps []) = (x0, v0) :: t ->
+     (nth c data 0 < x0 \/ fst (last ((x0, v0) :: t) (x0, (0, 0))) < nth c data 0) ->
+     nth c (delivered_bandpass data cal bps i1 i2) None = None).
+Proof. exact (conj delivered_bandpass_is_spec delivered_bandpass_invalid_outside). Qed.
+Print Assumptions C14_delivered_bandpass.
+
+(* the general fact behind both: a K or B correction vector that is already on the data channels is handed over
+   channel by channel (never re-mapped through the cal stream's channelisation) *)
+Theorem C14_delivered_direct : forall data cal gs i1 i2 c,
+  gs <> [] -> (forall g, In g gs -> List.length g = List.length data) -> (c < List.length data)%nat ->
+  delivered true data cal gs i1 i2 c = cmul (nth c (nth i1 gs []) None) (cconj (nth c (nth i2 gs []) None)).
+Proof. exact delivered_direct. Qed.
+Print Assumptions C14_delivered_direct.
